@@ -108,6 +108,9 @@ KINDS = [
     ('okvar', 'GET', '/ok', {'qs': 'n={i}'}),
     ('namedvar', 'GET', '/item/{i}', {}),
     # handlers that set response headers to numbers and flags: equal values of different type (True / 1.0, 0.0 / -0.0) in different requests
+    # one URL failing for request-specific reasons (the reason is quoted in the JSON error document)
+    ('crashj-a', 'GET', '/crashj', {'headers': {'Accept': 'application/json', 'X-Why': 'card 4111-of-alice declined'}}),
+    ('crashj-b', 'GET', '/crashj', {'headers': {'Accept': 'application/json', 'X-Why': 'stock empty'}}),
     ('hv-flag', 'GET', '/hv/flag', {}),
     ('hv-num', 'GET', '/hv/num', {}),
 ]
@@ -225,6 +228,10 @@ def fresh_app():
     app.route('/only-post', 'POST', ok)
     app.route('/body', 'POST', body)
     app.route('/crash', 'GET', crash)
+
+    def crashj():
+        raise ValueError(app.request.headers.get('X-Why', '?'))
+    app.route('/crashj', 'GET', crashj)
     app.route('/redirect', 'GET', redir)
     app.route('/form', 'POST', form)
     app.route('/upload', 'POST', upload)
